@@ -26,6 +26,8 @@ impl InstructionGenerator {
 
         // if true, run statements and jump out
         self.visit(if_block.statements);
+        // to be able to resume after an error at the last statement of the block
+        self.mark_statement_address();
         self.jump("end-if", pos);
 
         for i in 0..else_if_blocks.len() {
@@ -47,6 +49,8 @@ impl InstructionGenerator {
 
             // if true, run statements and jump out
             self.visit(else_if_block.statements);
+            // to be able to resume after an error at the last statement of the block
+            self.mark_statement_address();
             self.jump("end-if", pos);
         }
 
